@@ -444,4 +444,46 @@ theorem minter_frame_run (s : State) (m : Minter) (hm : s.minter = some m) (ops 
     obtain ⟨m2, hm2, h2⟩ := ih (step' s op) m1 hm1
     exact ⟨m2, by rw [run_cons]; exact hm2, h1.trans h2⟩
 
+/-- with the harness' code table the collection codes are exactly 16..19 -/
+theorem variantOf_std (c : VF.Codes) (hc : c.colls = [16, 17, 18, 19]) (code : Nat) :
+    (variantOf c code).isSome = (decide (16 ≤ code) && decide (code ≤ 19)) := by
+  unfold variantOf VF.Codes.collKindOf
+  rw [hc]
+  by_cases h16 : code = 16
+  · subst h16; rfl
+  by_cases h17 : code = 17
+  · subst h17; rfl
+  by_cases h18 : code = 18
+  · subst h18; rfl
+  by_cases h19 : code = 19
+  · subst h19; rfl
+  have e16 : (16 == code) = false := by simp; omega
+  have e17 : (17 == code) = false := by simp; omega
+  have e18 : (18 == code) = false := by simp; omega
+  have e19 : (19 == code) = false := by simp; omega
+  simp [List.findIdx?, List.findIdx?.go, e16, e17, e18, e19]
+  omega
+
+/-! ## a concrete history (used by the non-vacuity examples of the refinement modules) -/
+
+def exParams : Params :=
+  { codeId := 11, allowed := [16, 17, 18, 19], frozen := false, creationFee := ⟨0, 250000000⟩,
+    minMintPrice := ⟨0, 50000000⟩, mintFeeBps := 1000, maxTradingOffsetSecs := 604800, ext := false }
+
+/-- the factory is `contract0` (address id 1000), its wasm admin is account 90 -/
+def exInit : State := init 5000 ⟨[11], [16, 17, 18, 19]⟩ 1000 (some 90) exParams
+
+/-- a collection of kind sg721-nt, creator 10 -/
+def exMsg : CreateMsg :=
+  { collCode := 18, creator := some 10, trading := none, descLen := 12, imageOk := true, linkOk := none, royalty := none }
+
+/-- account 11 pays (and over-pays by 777) a `CreateMinter` naming creator 10; governance then raises the minimum price and doubles
+the fee rate; the creator mints at captured price × new rate; the payer may not mint; the new minimum price is not charged -/
+def exOps : List Op :=
+  [.fund 10 ⟨0, 1000000000⟩, .fund 11 ⟨0, 1000000000⟩,
+   .create 11 [⟨0, 250000777⟩] exMsg ⟨1001, 1002⟩,
+   .sudoParams { minMintPrice := some ⟨0, 80000000⟩, mintFeeBps := some 2000 },
+   .mint 10 [⟨0, 10000000⟩] 7 true, .mint 11 [⟨0, 10000000⟩] 8 true, .mint 10 [⟨0, 16000000⟩] 9 true,
+   .setTime 6000, .updateStartTradingTime 10 [] (some 5999), .collBurn 10 1]
+
 end LP.BF
